@@ -430,7 +430,11 @@ class ToyReplayer:
             for label, fn in (("mult", lambda: cv.mult(3, Q, ec)), ("double_mult_var", lambda: cv.double_mult_var(1, Q, 2, T[1], ec)),
                               ("double_mult_var/2", lambda: cv.double_mult_var(1, T[1], 2, Q, ec)),
                               ("multi_mult_var", lambda: cv.multi_mult_var([1, 2], [T[1], Q], ec)),
-                              ("PreparedPoint", lambda: cv.PreparedPoint(Q, ec).mult(2))):
+                              ("PreparedPoint", lambda: cv.PreparedPoint(Q, ec).mult(2)),
+                              ("add_var/1", lambda: ec.add_var(Q, T[1])), ("add_var/2", lambda: ec.add_var(T[1], Q)),
+                              ("add_var/inf", lambda: ec.add_var(INF, Q)), ("add_var/both", lambda: ec.add_var(Q, Q)),
+                              ("multi_mult_var/1", lambda: cv.multi_mult_var([1, 2], [Q, T[1]], ec)),
+                              ("double_mult_var/zero", lambda: cv.double_mult_var(0, Q, 2, T[1], ec))):
                 self.n += 1
                 ok, why = _refused(fn)
                 if not ok:
@@ -490,7 +494,7 @@ def real_events(run: Run, per_curve: int) -> list[dict[str, Any]]:
     evs: list[dict[str, Any]] = []
 
     def cv(ec: Any) -> dict[str, Any]:
-        return {"p": nat(ec.p), "a": nat(ec._a), "b": nat(ec._b), "gx": nat(ec.G[0]), "gy": nat(ec.G[1]), "n": nat(ec.n), "h": ec.cofactor}
+        return {"p": nat(ec.p), "a": nat(ec._a), "b": nat(ec._b), "gx": nat(ec.G[0]), "gy": nat(ec.G[1]), "n": nat(ec.n), "h": nat(ec.cofactor)}
 
     def pt(P: Any) -> dict[str, Any]:
         return {"inf": 1} if P[1] == 0 else {"x": nat(P[0]), "y": nat(P[1])}
@@ -551,6 +555,168 @@ def real_events(run: Run, per_curve: int) -> list[dict[str, Any]]:
     return evs
 
 
+# ---- caller-defined curves beyond the toy sizes (inputs are found here; TLC alone says whether a tuple is valid) ----
+
+
+def _aff_add(P: Any, Q: Any, a: int, p: int) -> Any:
+    if P is None:
+        return Q
+    if Q is None:
+        return P
+    if P[0] == Q[0]:
+        if (P[1] + Q[1]) % p == 0:
+            return None
+        lam = (3 * P[0] * P[0] + a) * pow(2 * P[1], -1, p) % p
+    else:
+        lam = (Q[1] - P[1]) * pow(Q[0] - P[0], -1, p) % p
+    x = (lam * lam - P[0] - Q[0]) % p
+    return x, (lam * (P[0] - x) - P[1]) % p
+
+
+def _aff_mul(k: int, P: Any, a: int, p: int) -> Any:
+    R = None
+    while k:
+        if k & 1:
+            R = _aff_add(R, P, a, p)
+        P = _aff_add(P, P, a, p)
+        k >>= 1
+    return R
+
+
+def _isprime(n: int) -> bool:
+    if n < 2:
+        return False
+    for q in (2, 3, 5, 7, 11, 13, 17, 19, 23, 29, 31, 37):
+        if n % q == 0:
+            return n == q
+    d, r = n - 1, 0
+    while d % 2 == 0:
+        d, r = d // 2, r + 1
+    for a in (2, 3, 5, 7, 11, 13, 17, 19, 23, 29, 31, 37):
+        x = pow(a, d, n)
+        if x in (1, n - 1):
+            continue
+        for _ in range(r - 1):
+            x = x * x % n
+            if x == n - 1:
+                break
+        else:
+            return False
+    return True
+
+
+def _sqrt_mod(a: int, p: int) -> int | None:
+    if a % p == 0:
+        return 0
+    if pow(a, (p - 1) // 2, p) != 1:
+        return None
+    if p % 4 == 3:
+        return pow(a, (p + 1) // 4, p)
+    for y in range(1, p):   # only used for the small primes below
+        if y * y % p == a % p:
+            return y
+    return None
+
+
+def candidate_tuples(rnd: random.Random, thorough: bool) -> list[dict[str, Any]]:
+    """(p, a, b, G, n, h) tuples with a prime-order subgroup: mid-size fields and the quadratic twist of secp256k1."""
+    out = []
+    for p in ([101, 251, 1009, 10007] if thorough else [101, 1009]):
+        found = 0
+        tries = 0
+        want = {1: 2, 2: 2, 3: 1, 4: 1}
+        while sum(want.values()) > 0 and tries < 400:
+            tries += 1
+            a, b = rnd.randrange(p), rnd.randrange(1, p)
+            if (4 * a**3 + 27 * b * b) % p == 0:
+                continue
+            card = p + 1 + sum(-1 if (v := (x**3 + a * x + b) % p) and pow(v, (p - 1) // 2, p) != 1 else (1 if v else 0) for x in range(p))
+            for h in (1, 2, 3, 4):
+                if want.get(h, 0) and card % h == 0 and _isprime(card // h) and card // h > 2:
+                    n = card // h
+                    for x in range(p):
+                        y = _sqrt_mod((x**3 + a * x + b) % p, p)
+                        if y:
+                            G = _aff_mul(h, (x, y), a, p)
+                            if G is not None and _aff_mul(n, G, a, p) is None:
+                                out.append({"p": p, "a": a, "b": b, "G": G, "n": n, "h": h, "label": f"p={p} h={h}"})
+                                want[h] -= 1
+                                found += 1
+                                break
+                    break
+    # the quadratic twist of secp256k1: y^2 = x^3 + 2 over the same prime, order 2(p+1) - n
+    P256 = 0xFFFFFFFFFFFFFFFFFFFFFFFFFFFFFFFFFFFFFFFFFFFFFFFFFFFFFFFEFFFFFC2F
+    N256 = 0xFFFFFFFFFFFFFFFFFFFFFFFFFFFFFFFEBAAEDCE6AF48A03BBFD25E8CD0364141
+    card = 2 * (P256 + 1) - N256
+    rest, h = card, 1
+    q = 2
+    while q < 200000 and not _isprime(rest):
+        while rest % q == 0 and not _isprime(rest):
+            rest //= q
+            h *= q
+        q += 1
+    if _isprime(rest):
+        for x in range(1, 50):
+            y = _sqrt_mod((x**3 + 2) % P256, P256)
+            if y:
+                G = _aff_mul(h, (x, y), 0, P256)
+                if G is not None and _aff_mul(rest, G, 0, P256) is None:
+                    out.append({"p": P256, "a": 0, "b": 2, "G": G, "n": rest, "h": h, "label": "secp256k1 quadratic twist"})
+                    break
+    return out
+
+
+def caller_defined_events(run: Run, rnd: random.Random, thorough: bool) -> list[dict[str, Any]]:
+    from btclib.curves import double_mult_var, mult, multi_mult_var
+    from btclib.curves.curve import Curve, PreparedPoint
+    from btclib.exceptions import BTClibValueError
+
+    evs: list[dict[str, Any]] = []
+
+    def cj(t: dict[str, Any], **over: Any) -> dict[str, Any]:
+        d = {**t, **over}
+        return {"p": nat(d["p"]), "a": nat(d["a"]), "b": nat(d["b"]), "gx": nat(d["G"][0]), "gy": nat(d["G"][1]), "n": nat(d["n"]), "h": nat(d["h"])}
+
+    def pt(P: Any) -> dict[str, Any]:
+        return {"inf": 1} if P[1] == 0 else {"x": nat(P[0]), "y": nat(P[1])}
+
+    for t in candidate_tuples(rnd, thorough):
+        variants = [("as found", {}), ("cofactor + 1", {"h": t["h"] + 1}), ("n replaced by a multiple", {"n": t["n"] * 2}),
+                    ("G not on the curve", {"G": (t["G"][0], (t["G"][1] + 1) % t["p"])}), ("b + 1", {"b": (t["b"] + 1) % t["p"]})]
+        for vlabel, over in variants:
+            d = {**t, **over}
+            if d["h"] < 1:
+                continue
+            try:
+                ec = Curve(d["p"], d["a"], d["b"], d["G"], d["n"], d["h"], weakness_check=False)
+                acc = True
+            except BTClibValueError:
+                acc, ec = False, None
+            except Exception as e:  # noqa: BLE001
+                run.violation(f"ec|Curve|foreign|{type(e).__name__}", f"Curve({t['label']}, {vlabel}) raised {type(e).__name__}: {e}", {"tuple": str(d)})
+                continue
+            evs.append({"op": "curve_accept", "name": f"{t['label']} / {vlabel}", "tag": t["label"], "c": cj(d), "accepted": acc})
+            if ec is None or vlabel != "as found":
+                continue
+            c = cj(d)
+            n = d["n"]
+            Pp = mult(rnd.randrange(2, n), ec=ec)
+            Qq = mult(rnd.randrange(2, n), ec=ec)
+            scal = [0, 1, 2, n - 1, n, n + 1, 0xDEADBEEF % n, (2**126 + 12345) % n, (2**130 + 7) % n, (1 << (n.bit_length() - 1)) % n, rnd.randrange(n), rnd.randrange(n)]
+            for k in scal:
+                for pj, PP in (({"g": 1}, None), (pt(Pp), Pp)):
+                    evs.append({"op": "lin", "tag": t["label"], "fn": "mult", "c": c, "ks": [nat(k)], "ps": [pj], "out": pt(mult(k, PP, ec))})
+                evs.append({"op": "lin", "tag": t["label"], "fn": "PreparedPoint.mult", "c": c, "ks": [nat(k)], "ps": [pt(Qq)], "out": pt(PreparedPoint(Qq, ec).mult(k))})
+            for _ in range(6):
+                u, v = rnd.choice(scal), rnd.choice(scal)
+                evs.append({"op": "lin", "tag": t["label"], "fn": "double_mult_var", "c": c, "ks": [nat(u), nat(v)], "ps": [pt(Pp), pt(Qq)],
+                            "out": pt(double_mult_var(u, Pp, v, Qq, ec))})
+            us = [rnd.choice(scal) for _ in range(4)]
+            evs.append({"op": "lin", "tag": t["label"], "fn": "multi_mult_var[4]", "c": c, "ks": [nat(u) for u in us], "ps": [pt(Pp), pt(Qq), pt(ec.G), pt(Pp)],
+                        "out": pt(multi_mult_var(us, [Pp, Qq, ec.G, Pp], ec))})
+    return evs
+
+
 def check(run: Run) -> None:
     thorough = run.tier == "thorough"
     rnd = random.Random(run.seed)
@@ -585,6 +751,7 @@ def check(run: Run) -> None:
                 "group": recs[len(recs) // 2]["groups"][:1]})
     # ---- V: real size ----
     evs = real_events(run, 40 if thorough else 6)
+    evs += caller_defined_events(run, rnd, thorough)
     results, bad, diag = events.validate("C01Trace", evs)
     for r in results:
         run.tlc(r, "V C01Trace")
